@@ -8,12 +8,15 @@ for f in sorted(glob.glob('/verif/seeded/*/*/meta.json')):
     need = re.sub(r'^#+\s*\S+\s*', '', need)[:150]
     for chk, v in m['checks_quick'].items():
         sig = v['signatures'][0].split(' cases=')[0] if v['signatures'] else ''
-        rows.append((m['property'], m['id'], 'sub-agent', chk, 'caught' if v['exit'] == 1 else 'MISSED', sig[:70], m.get('note', '')))
+        rc = m.get('recheck', {}).get('result', '')
+        rc = {'caught': 'caught', 'not caught': 'NOT CAUGHT', 'machinery': 'machinery'}.get(rc, 'n/a (patch no longer applies)' if rc else '')
+        rows.append((m['property'], m['id'], 'sub-agent', chk, 'caught' if v['exit'] == 1 else 'MISSED', rc, sig[:70], m.get('note', '')))
 res = '/verif/mutations/RESULTS.json'
 if os.path.exists(res):
     for r in json.load(open(res)):
-        rows.append((r['property'], r['name'], 'own', r['property'], 'caught' if r['exit'] == 1 else ('no property break (equivalent)' if r.get('equivalent') else 'MISSED'), r.get('signature', '')[:70], r.get('note', '')))
-print('| property | change | origin | check | verdict | first signature | note |')
-print('|---|---|---|---|---|---|---|')
+        v = 'caught' if r['exit'] == 1 else ('no property break (equivalent)' if r.get('equivalent') else ('n/a (patch no longer applies)' if r['exit'] == -1 else 'MISSED'))
+        rows.append((r['property'], r['name'], 'own', r['property'], v, r.get('final_tree', ''), r.get('signature', '')[:70], r.get('note', '')))
+print('| property | change | origin | check | verdict (tree it was written for) | on the final tree | first signature | note |')
+print('|---|---|---|---|---|---|---|---|')
 for r in sorted(rows):
     print('| ' + ' | '.join(x.replace('|', '/') for x in r) + ' |')
